@@ -31,7 +31,8 @@ def _check_all(d, props):
 def _key(line):
     import re
     m = re.search(r"rule=(\S+) construct=(.*?) ::", line)
-    return (m.group(1), m.group(2)) if m else line
+    # a refactoring may rename the function a construct is named after: the rule and the last component identify the finding
+    return (m.group(1), m.group(2).split(":")[-1]) if m else line
 
 
 def run_one(sid, props, base=SEEDED):
@@ -41,13 +42,19 @@ def run_one(sid, props, base=SEEDED):
     patch = os.path.join(base, sid, "patch.diff")
     try:
         shutil.copytree("/repo/flow", os.path.join(d, "flow"))
+        pinned = None
+        mp = os.path.join(base, sid, "meta.json")
+        if os.path.exists(mp):
+            pinned = json.load(open(mp)).get("evaluate_on_ancestor")
         ap = subprocess.run(["git", "apply", patch], cwd=d, capture_output=True, text=True)
-        if ap.returncode == 0:
+        if ap.returncode == 0 and not pinned:
             res = {}
             for p, (rc, lines, err) in _check_all(d, props).items():
                 res[p] = {"rc": rc, "first": (lines or err or [""])[0][:240]}
             return sid, res
         commits = subprocess.run(["git", "-C", "/repo", "log", "--format=%H", "-n", "40"], capture_output=True, text=True).stdout.split()[1:]
+        if pinned:
+            commits = [c for c in commits if c.startswith(pinned)] or commits
         for c in commits:
             shutil.rmtree(os.path.join(d, "flow"), ignore_errors=True)
             if subprocess.run(f"git -C /repo archive {c} flow | tar -x -C {d}", shell=True).returncode != 0:
